@@ -119,7 +119,7 @@ def run_schedule(impl, actors_steps, strategy, line=False, dims=None, core_kw=No
             sched.install_task_locks(s)
         spy.actor = s.actor_id
         sim = simdev.SimDevice(rng=random.Random(5), maxdata=dims["maxdata"], remote_ids=dims["remote"])
-        sess = session.Session(impl, sim=sim, checked_locks=False, frag=dims["frag"], empty_rate=dims["empty_rate"], budget=200000, timeouts_cost_time=False, **(core_kw or {}))
+        sess = session.Session(impl, sim=sim, checked_locks=False, frag=dims["frag"], empty_rate=dims["empty_rate"], timeouts_cost_time=False, **dict({"budget": 200000}, **(core_kw or {})))
         out = sess.call("connect")
         assert out.ok, out
         sess.core.excl_wait = 0.01        # (an actor found inside the transport is suspended there for good: see MemTransport._excl)
